@@ -51,6 +51,7 @@ struct push0_pipe {
 	nni_pipe     *pipe;
 	push0_sock   *push;
 	nni_list_node node;
+	bool          closed;
 
 	nni_aio aio_recv;
 	nni_aio aio_send;
@@ -158,6 +159,7 @@ push0_pipe_close(void *arg)
 	nni_aio_close(&p->aio_send);
 
 	nni_mtx_lock(&s->m);
+	p->closed = true;
 	if (nni_list_node_active(&p->node)) {
 		nni_list_node_remove(&p->node);
 
@@ -194,6 +196,12 @@ push0_pipe_ready(push0_pipe *p)
 	bool        blocked;
 
 	nni_mtx_lock(&s->m);
+	if (p->closed) {
+		// A send completion (or the start) can be racing with the
+		// close; a closed pipe must not go back on the ready list.
+		nni_mtx_unlock(&s->m);
+		return;
+	}
 
 	blocked = nni_lmq_full(&s->wq) && nni_list_empty(&s->pl);
 
